@@ -44,15 +44,23 @@ Qed.
 Lemma log_spec_eqb_refl l : log_spec_eqb l l = true.
 Proof. apply list_eqb_refl, entry_spec_eqb_refl. Qed.
 
+Lemma xcls_eqb_refl x : xcls_eqb x x = true.
+Proof. destruct x; reflexivity. Qed.
+
+Lemma xcls_eqb_eq a b : xcls_eqb a b = true -> a = b.
+Proof. destruct a, b; cbn; congruence. Qed.
+
 Lemma result_eqb_refl r : result_eqb r r = true.
 Proof.
   destruct r; cbn; try reflexivity; try apply markers_eqb_refl; try apply datum_eqb_refl;
-    try apply N.eqb_refl.
-  rewrite site_eqb_refl, Nat.eqb_refl. reflexivity.
+    try apply N.eqb_refl;
+  rewrite site_eqb_refl, Nat.eqb_refl, xcls_eqb_refl; reflexivity.
 Qed.
 
 Lemma cres_eqb_refl r : cres_eqb r r = true.
-Proof. destruct r; cbn; try reflexivity. rewrite site_eqb_refl, Nat.eqb_refl. reflexivity. Qed.
+Proof.
+  destruct r; cbn; try reflexivity; rewrite site_eqb_refl, Nat.eqb_refl, xcls_eqb_refl; reflexivity.
+Qed.
 
 (* ------------------------------------------------------------------ *)
 (* the dispatch loop                                                   *)
@@ -60,7 +68,7 @@ Proof. destruct r; cbn; try reflexivity. rewrite site_eqb_refl, Nat.eqb_refl. re
 
 (* the loop of Method.__call__ over the participants only *)
 Fixpoint walk (s : site) (url : N) (can : bool) (d : datum) (seen : list nat) (l : list part)
-  : list (entry * bool) :=
+  : list (entry * option xcls) :=
   match l with
   | [] => []
   | q :: t =>
@@ -87,7 +95,7 @@ Proof.
   fold (domain (site_kind s) (index_from (S i) r)).
   destruct (has_kind (site_kind s) p) eqn:K.
   - cbn [call]. destruct (get_slot (site_name s) p) as [| | |e x] eqn:G; try apply IH.
-    cbn [walk walk_out cut q_idx q_edits q_raises e_site e_idx].
+    cbn [walk walk_out cut q_idx q_edits q_raises e_site e_idx e_url].
     destruct x; [reflexivity|].
     rewrite IH.
     destruct (cut (walk s url can (if e then edit s can (s, i) d else d) (seen ++ [i]) (parts_from s (S i) r)))
@@ -109,7 +117,7 @@ Proof.
   cbn [walk_out]. rewrite marks_cons, IH. destruct (q_edits q); reflexivity.
 Qed.
 
-Definition dq := mkPart 0 false false.
+Definition dq := mkPart 0 false None.
 
 Lemma walk_nth s url can : forall l d seen,
   walk s url can d seen l =
@@ -229,28 +237,33 @@ Qed.
 Lemma cut_nil : cut [] = ([], None).
 Proof. reflexivity. Qed.
 
-Lemma cut_sites l s' i : snd (cut l) = Some (s', i) -> exists x, In x l /\ e_site (fst x) = s' /\ e_idx (fst x) = i.
+(* the exception in flight is the one of a hook call in the list: its site, plugin, URL and
+   the class that call raises *)
+Lemma cut_sites l h : snd (cut l) = Some h ->
+  exists y, In y l /\ e_site (fst y) = x_site h /\ e_idx (fst y) = x_idx h /\
+            e_url (fst y) = x_url h /\ snd y = Some (x_cls h).
 Proof.
   induction l as [|[e r] t IH]; cbn [cut]; [discriminate|].
-  destruct r.
-  - cbn. intro H. inversion H. exists (e, true). cbn. auto.
+  destruct r as [x|].
+  - cbn. intro H. inversion H. exists (e, Some x). cbn. auto 6.
   - destruct (cut t) as [l' x]. cbn [snd] in *. intro H. destruct (IH H) as (y & Hy & H1).
     exists y. split; [right; exact Hy|exact H1].
 Qed.
 
-Lemma cut_stage_site s url can d ps s' i :
-  snd (cut (stage_full s url can d ps)) = Some (s', i) -> s' = s.
+Lemma cut_stage_site s url can d ps h :
+  snd (cut (stage_full s url can d ps)) = Some h -> x_site h = s /\ x_url h = url.
 Proof.
-  intro H. apply cut_sites in H as (x & Hx & H1 & _). apply stage_full_site in Hx as [Hx _]. congruence.
+  intro H. apply cut_sites in H as (y & Hy & H1 & _ & H2 & _).
+  apply stage_full_site in Hy as [Hy Hu]. split; congruence.
 Qed.
 
 Lemma cut_log_in l e : In e (fst (cut l)) -> exists r, In (e, r) l.
 Proof.
   induction l as [|[e' r] t IH]; cbn [cut]; [contradiction|].
-  destruct r.
-  - cbn. intros [<-|[]]. exists true. left. reflexivity.
+  destruct r as [x0|].
+  - cbn. intros [<-|[]]. exists (Some x0). left. reflexivity.
   - destruct (cut t) as [l' x]. cbn [fst] in *. intros [<-|H].
-    + exists false. left. reflexivity.
+    + exists None. left. reflexivity.
     + destruct (IH H) as (r' & Hr). exists r'. right. exact Hr.
 Qed.
 
